@@ -280,10 +280,17 @@ Inductive pa_hexp :=
 | PaHAgg (c : pa_call)           (* an aggregate call written in the HAVING text *)
 | PaHLit (q : Q)
 | PaHBin (o : pa_op) (x y : pa_hexp).
+(* A searched CASE is carried flat: [ops] holds the comparison of every WHEN, [es] the operands in the
+   order of the text: x1 y1 r1 ... xn yn rn [e]  for
+     CASE WHEN x1 o1 y1 THEN r1 ... WHEN xn on yn THEN rn [ELSE e] END.
+   (The WHEN conditions are single comparisons: AND / OR anywhere in a HAVING text that contains CASE
+   sends the whole text down the branch described at pa_hkeep.) *)
 Inductive pa_hpred :=
 | PaHCmp (o : pa_cmpop) (x y : pa_hexp)
 | PaHAnd (p q : pa_hpred)
-| PaHOr (p q : pa_hpred).
+| PaHOr (p q : pa_hpred)
+| PaHCase (ops : list pa_cmpop) (es : list pa_hexp)                  (* HAVING CASE ... END *)
+| PaHCaseCmp (o : pa_cmpop) (ops : list pa_cmpop) (es : list pa_hexp) (z : pa_hexp).   (* CASE ... END o z *)
 
 (* extractHavingAggregates: the k-th aggregate call of the HAVING text (left to right) becomes the
    hidden column __having_k__. (The branch that maps a call to the alias of an identical SELECT item
@@ -299,12 +306,26 @@ Fixpoint pa_hx_exp (n : nat) (e : pa_hexp) : pa_hexp * list pa_call :=
       let (y', cy) := pa_hx_exp (n + length cx) y in
       (PaHBin o x' y', cx ++ cy)
   end.
+Fixpoint pa_hx_list (n : nat) (es : list pa_hexp) : list pa_hexp * list pa_call :=
+  match es with
+  | [] => ([], [])
+  | e :: es' =>
+      let (e', ce) := pa_hx_exp n e in
+      let (es'', cs) := pa_hx_list (n + length ce) es' in
+      (e' :: es'', ce ++ cs)
+  end.
 Fixpoint pa_hx_pred (n : nat) (p : pa_hpred) : pa_hpred * list pa_call :=
   match p with
   | PaHCmp o x y =>
       let (x', cx) := pa_hx_exp n x in
       let (y', cy) := pa_hx_exp (n + length cx) y in
       (PaHCmp o x' y', cx ++ cy)
+  | PaHCase ops es =>
+      let (es', cs) := pa_hx_list n es in (PaHCase ops es', cs)
+  | PaHCaseCmp o ops es z =>
+      let (es', cs) := pa_hx_list n es in
+      let (z', cz) := pa_hx_exp (n + length cs) z in
+      (PaHCaseCmp o ops es' z', cs ++ cz)
   | PaHAnd p q =>
       let (p', cp) := pa_hx_pred n p in
       let (q', cq) := pa_hx_pred (n + length cp) q in
@@ -328,21 +349,78 @@ Definition pa_cmp_holds (o : pa_cmpop) (a b : Q) : bool :=
   | PaGt, Gt | PaGe, Gt | PaGe, Eq | PaLt, Lt | PaLe, Lt | PaLe, Eq | PaEq, Eq | PaNe, Lt | PaNe, Gt => true
   | _, _ => false
   end.
+Definition pa_cmp_opt (o : pa_cmpop) (a b : option Q) : bool :=
+  match a, b with Some x, Some y => pa_cmp_holds o x y | _, _ => false end.
+(* the operand a searched CASE selects (expr/case_expression.go evaluateCaseExpressionWithNull): the
+   result of the first WHEN whose comparison holds, else the ELSE operand, else nothing (NULL).
+   [vs] are the values of the operands, [xs] runs parallel to them and is what is returned. *)
+Fixpoint pa_case_sel {A : Type} (ops : list pa_cmpop) (vs : list (option Q)) (xs : list A) : option A :=
+  match ops, vs, xs with
+  | o :: ops', x :: y :: _ :: vs', _ :: _ :: xr :: xs' =>
+      if pa_cmp_opt o x y then Some xr else pa_case_sel ops' vs' xs'
+  | [], [_], [xe] => Some xe
+  | _, _, _ => None
+  end.
+(* value of the CASE from the values of its operands *)
+Definition pa_case_val (ops : list pa_cmpop) (vs : list (option Q)) : option Q :=
+  match pa_case_sel ops vs vs with Some v => v | None => None end.
+(* applyHavingWithCaseExpression: a numeric result keeps the row iff it is > 0; NULL drops it *)
+Definition pa_truthy (v : option Q) : bool :=
+  match v with Some q => pa_cmp_holds PaGt q 0 | None => false end.
+
+(* the value of the condition on a result row *)
 Fixpoint pa_hholds (p : pa_hpred) (r : pa_row) : bool :=
   match p with
-  | PaHCmp o x y => match pa_heval x r, pa_heval y r with
-                    | Some a, Some b => pa_cmp_holds o a b
-                    | _, _ => false
-                    end
+  | PaHCmp o x y => pa_cmp_opt o (pa_heval x r) (pa_heval y r)
   | PaHAnd p q => pa_hholds p r && pa_hholds q r
   | PaHOr p q => pa_hholds p r || pa_hholds q r
+  | PaHCase ops es => pa_truthy (pa_case_val ops (map (fun e => pa_heval e r) es))
+  | PaHCaseCmp o ops es z =>
+      pa_cmp_opt o (pa_case_val ops (map (fun e => pa_heval e r) es)) (pa_heval z r)
   end.
 
-(* applyHavingWithCondition: append the rows for which the condition evaluates to true *)
+Fixpoint pa_has_case (p : pa_hpred) : bool :=
+  match p with
+  | PaHCmp _ _ _ => false
+  | PaHAnd p q | PaHOr p q => pa_has_case p || pa_has_case q
+  | PaHCase _ _ | PaHCaseCmp _ _ _ _ => true
+  end.
+
+(* applyHavingWithCaseExpression looks at the Go type of the CASE's result: float64 keeps the row iff
+   > 0, string iff non-empty, NULL drops it, and "other types, non-nil is considered true". Aggregates
+   and arithmetic are float64; a selected result that is literally a numeric GROUP BY column carries
+   the input row's own value - a Go int when the rows carry ints, as the harness sends them - and such a
+   row is kept whatever the number is (finding F10j). *)
+Definition pa_int_typed (e : pa_hexp) : bool :=
+  match e with PaHCol (PaGroup _) => true | _ => false end.
+Definition pa_case_keep (ops : list pa_cmpop) (es : list pa_hexp) (r : pa_row) : bool :=
+  let vs := map (fun e => pa_heval e r) es in
+  match pa_case_sel ops vs (combine es vs) with
+  | Some (e, Some q) => if pa_int_typed e then true else pa_cmp_holds PaGt q 0
+  | _ => false
+  end.
+
+(* applyHavingFilter routes on "the HAVING text contains CASE":
+     no CASE             applyHavingWithCondition (expr-lang): the value of the condition;
+     CASE ... END        applyHavingWithCaseExpression, expr.NewExpression parses the text: the value
+                         (pa_case_keep: but for a bare integer-typed result);
+     CASE ... END o z    the custom parser of expr.NewExpression fails, the expr-lang fallback returns an
+                         error for every row and the row is skipped: every group is dropped (finding F10h);
+     AND / OR with CASE  the parser has rewritten AND / OR to && / ||, expr.NewExpression rejects the
+                         character and the filter returns the batch unfiltered (finding F10i). *)
+Definition pa_hkeep (p : pa_hpred) (r : pa_row) : bool :=
+  match p with
+  | PaHCmp _ _ _ => pa_hholds p r
+  | PaHCase ops es => pa_case_keep ops es r
+  | PaHAnd _ _ | PaHOr _ _ => if pa_has_case p then true else pa_hholds p r
+  | PaHCaseCmp _ _ _ _ => false
+  end.
+
+(* applyHavingFilter: append the rows that are kept *)
 Fixpoint pa_having (p : pa_hpred) (l : list pa_row) : list pa_row :=
   match l with
   | [] => []
-  | r :: l' => if pa_hholds p r then r :: pa_having p l' else pa_having p l'
+  | r :: l' => if pa_hkeep p r then r :: pa_having p l' else pa_having p l'
   end.
 
 Definition pa_is_hidden (c : pa_col) : bool := match c with PaHidden _ => true | _ => false end.
